@@ -1186,18 +1186,17 @@ theorem bucket_wire (v : V) (bs : Bytes) (v2 : V) (h : Bucket.marshalM v = .ok (
       simp only at g2
       split at g2
       · exact absurd g2 (by simp)
-      · obtain ⟨eb, _⟩ : bs = _ ∧ v2 = _ := by cases g2; exact ⟨rfl, rfl⟩
-        subst eabs
+      · subst eabs
+        clear g1 hml
+        cases g2
         refine ⟨ls, as, as1, bss, as2, rfl, hm, hmm, ?_, ?_, ?_, ?_⟩
-        · rw [eb]; simp only [List.append_assoc]; exact beAt_be16 _ _
-        · rw [eb, List.append_assoc _ bss.flatten]
+        · simp only [List.append_assoc]; exact beAt_be16 _ _
+        · rw [List.append_assoc _ bss.flatten]
           exact mid_of_append _ (zeros 4) _ 12 (by simp)
-        · rw [eb]
-          exact mid_of_append _ bss.flatten _ 16 (by simp)
-        · conv => lhs; rw [eb]
-          rw [tail_of_append _ bss.flatten _ _ (by simp)]
+        · exact mid_of_append _ bss.flatten _ 16 (by simp)
+        · rw [tail_of_append _ bss.flatten _ _ (by simp)]
           congr 1
-          simp
+          simp; omega
     · exact absurd g1 (by simp)
   · exact absurd hl (by simp)
 
@@ -1262,16 +1261,16 @@ theorem helloElem_wire (ty ln : Nat) (bms : List V) (bs : Bytes) (v2 : V) (hn : 
     have h4 : (4 : UInt16).toNat = 4 := rfl
     rw [hp, h4]; omega
   rw [e4] at hl hf
-  have hh := fill_head _ _ _ _ (by simp; omega) hf
+  have hh := fill_head _ _ _ _ (by simp) hf
   obtain ⟨a, b⟩ := tlv_of_head _ _ _ _ hh
-  exact ⟨hl, by rw [a, n16_toNat'], by rw [b, n16_toNat']⟩
+  exact ⟨hl, a.trans (n16_toNat' _), by rw [b, n16_toNat']⟩
 
 /-- the element NewHelloElemVersionBitmap() builds (type 1, Length 8, one bitmap): (a) declares its 8 bytes,
     (b) a multiple of 8, (c) type OFPHET_VERSIONBITMAP -/
 theorem helloElem_new_ok (bs : Bytes) (v2 : V) (h : HelloElemVersionBitmap.marshalM HelloElemVersionBitmap.new = .ok (bs, v2)) :
     TLV Gen.common.HelloElemType_VersionBitmap bs ∧ bs.length % 8 = 0 := by
   obtain ⟨a, b, c⟩ := helloElem_wire 1 8 [.num 18] bs v2 (by decide) h
-  exact ⟨⟨b, by rw [c, a]⟩, by rw [a]⟩
+  exact ⟨⟨b, by rw [c, a]; rfl⟩, by rw [a]; rfl⟩
 
 /-- in general (the Bitmaps field is exported): with Length = 4 + 4·n as stored by a caller who appends n bitmaps, the
     element is a multiple of 8 bytes exactly when n is odd; for even n the padding the format requires is NOT written -/
@@ -1334,12 +1333,12 @@ theorem bundleProp_wire (t : Nat) (x : V) (ei et : Nat) (d : Bytes) (bs : Bytes)
       (be32 (n32 ei) ++ be32 (n32 et) ++ d ++ zeros ((12 + d.length + 7) / 8 * 8 - (2 + (2 + (4 + (4 + d.length)))))) := by
     rw [hx]; simp only [List.append_assoc]
   obtain ⟨a, b⟩ := tlv_of_head _ _ _ _ hh
-  refine ⟨by rw [a, n16_toNat'], by rw [b, e12], by rw [hl]; rfl, ?_, ?_⟩
+  refine ⟨a.trans (n16_toNat' _), by rw [b, e12], by rw [hl]; rfl, ?_, ?_⟩
   · rw [hx]; simp only [← List.append_assoc]
     exact mid_of_append _ _ _ 12 (by simp)
   · rw [hl]
     conv => lhs; rw [hx]; simp only [← List.append_assoc]
-    rw [tail_of_append _ _ _ _ (by simp; omega)]
+    rw [tail_of_append _ _ _ _ (by simp)]
     congr 1
     omega
 
@@ -1347,5 +1346,690 @@ theorem bundleProp_wire (t : Nat) (x : V) (ei et : Nat) (d : Bytes) (bs : Bytes)
 theorem bundleProp_new_wf : BundlePropertyExperimenter.new =
     .obj "BundlePropertyExperimenter" [.num Gen.openflow13.OFPBPT_EXPERIMENTER, .num 0, .num 0, .num 0, .bytes []] ∧
     Gen.openflow13.OFPBPT_EXPERIMENTER = 0xffff := ⟨rfl, rfl⟩
+
+/-! ### the Action interface: every well-formed action is self-delimiting -/
+
+/-- plain kinds with a constructor (the encoder writes the STORED length word) -/
+def plainWFKinds : List String := ["ActionOutput", "ActionSetqueue", "ActionGroup", "ActionDecNwTtl", "ActionPush",
+  "ActionPopVlan", "ActionPopMpls", "ActionSetField"]
+/-- Nicira kinds whose encoder writes the STORED length word (and allocates that many bytes) -/
+def nxStoredKinds : List String := ["NXActionConjunction", "NXActionRegLoad", "NXActionRegMove", "NXActionResubmit",
+  "NXActionResubmitTable", "NXActionOutputReg", "NXActionCTClear", "NXActionDecTTL", "NXActionDecTTLCntIDs"]
+/-- Nicira kinds whose encoder recomputes the length word from Len() -/
+def nxComputedKinds : List String := ["NXActionController", "NXActionNote", "NXActionLearn", "NXActionRegLoad2",
+  "NXActionCTNAT", "NXActionConnTrack"]
+
+/-- WELL-FORMED ACTION, as every constructor / adder of the library leaves it (`d`: remaining nesting bound of the
+    interface dispatch, irrelevant for every kind but conntrack):
+    Len() is a positive multiple of 8 (at least 16 for Nicira actions), the header has the expected shape, and — for
+    the kinds whose encoder copies the stored Length — the stored Length equals Len() -/
+def ActionWFD (d : Nat) (v : V) : Prop :=
+  ∃ l v1, Action.lenD (d + 1) v = .ok (l, v1) ∧ 8 ≤ l.toNat ∧ l.toNat % 8 = 0 ∧
+    ((v.kind ∈ plainWFKinds ∧ ∃ ty, ahdr v = some (ty, l.toNat)) ∨
+     (v.kind ∈ nxStoredKinds ∧ 16 ≤ l.toNat ∧ ∃ ty vd sb, nxhdr v = some (ty, l.toNat, vd, sb)) ∨
+     (v.kind ∈ nxComputedKinds ∧ 16 ≤ l.toNat ∧ ∃ ty ln vd sb, nxhdr v = some (ty, ln, vd, sb)))
+
+/-- … at the nesting bound of Action.Len() / Action.MarshalBinary() -/
+def ActionWF (v : V) : Prop := ActionWFD Action.encDepth v
+
+/-- the length word at offset 2 declares exactly the bytes of the element; at least 8, a multiple of 8 -/
+def Declares (bs : Bytes) : Prop := beAt bs 2 2 = bs.length ∧ 8 ≤ bs.length ∧ bs.length % 8 = 0
+
+macro "act_leaf" d:ident v:ident hk:ident h:ident K:ident : tactic => `(tactic| (
+  have e : Action.marshalD ($d + 1) $v = $K $v := by
+    simp [Action.marshalD, Action.marshalLeaf, $hk:ident]
+  rw [e] at $h:ident))
+
+/-- (a)+(b) through the Action interface, at every nesting bound: EVERY well-formed action — any kind, any field
+    values — encodes to a self-delimiting element: its length word says exactly how many bytes it occupies, a positive
+    multiple of 8 -/
+theorem action_declaresD (d : Nat) (v : V) (hwf : ActionWFD d v) (bs : Bytes) (v2 : V)
+    (h : Action.marshalD (d + 1) v = .ok (bs, v2)) : Declares bs := by
+  obtain ⟨l, v1, hl, h8, hal, hk⟩ := hwf
+  have hsz := C06b.action_sizeD (d + 1) v l v1 bs v2 hl h
+  have hlt := l.toNat_lt
+  refine ⟨?_, by omega, by omega⟩
+  rcases hk with ⟨hk, ty, ha⟩ | ⟨hk, h16, ty, vd, sb, hn⟩ | ⟨hk, h16, ty, ln, vd, sb, hn⟩
+  · simp only [plainWFKinds, List.mem_cons, List.mem_nil_iff, or_false] at hk
+    rcases hk with hk | hk | hk | hk | hk | hk | hk | hk
+    · act_leaf d v hk h ActionOutput.marshalM
+      rw [(actionOutput_wire v bs v2 _ _ ha h).2.2, hsz]; omega
+    · act_leaf d v hk h ActionSetqueue.marshalM
+      rw [(actionSetqueue_wire v bs v2 _ _ ha h).2.2, hsz]; omega
+    · act_leaf d v hk h ActionGroup.marshalM
+      rw [(actionGroup_wire v bs v2 _ _ ha h).2.2, hsz]; omega
+    · act_leaf d v hk h ActionDecNwTtl.marshalM
+      rw [(actionDecNwTtl_wire v bs v2 _ _ ha h).2.2.1, hsz]; omega
+    · act_leaf d v hk h ActionPush.marshalM
+      rw [(actionPush_wire v bs v2 _ _ ha h).2.2.1, hsz]; omega
+    · act_leaf d v hk h ActionPopVlan.marshalM
+      rw [(actionPopVlan_wire v bs v2 _ _ ha h).2.2.1, hsz]; omega
+    · act_leaf d v hk h ActionPopMpls.marshalM
+      rw [(actionPopMpls_wire v bs v2 _ _ ha h).2.2.1, hsz]; omega
+    · act_leaf d v hk h ActionSetField.marshalM
+      rw [(actionSetField_wire v bs v2 _ _ ha h).2.2.1, hsz]; omega
+  · simp only [nxStoredKinds, List.mem_cons, List.mem_nil_iff, or_false] at hk
+    rcases hk with hk | hk | hk | hk | hk | hk | hk | hk | hk
+    · act_leaf d v hk h NXActionConjunction.marshalM
+      exact ((nxConjunction_wire v bs v2 _ _ _ _ hn h).2 (by omega)).len_ok
+    · act_leaf d v hk h NXActionRegLoad.marshalM
+      exact ((nxRegLoad_wire v bs v2 _ _ _ _ hn h).2 (by omega)).len_ok
+    · act_leaf d v hk h NXActionRegMove.marshalM
+      exact ((nxRegMove_wire v bs v2 _ _ _ _ hn h).2 (by omega)).len_ok
+    · act_leaf d v hk h NXActionResubmit.marshalM
+      exact ((nxResubmit_wire v bs v2 _ _ _ _ hn h).2 (by omega)).len_ok
+    · act_leaf d v hk h NXActionResubmitTable.marshalM
+      exact ((nxResubmitTable_wire v bs v2 _ _ _ _ hn h).2 (by omega)).len_ok
+    · act_leaf d v hk h NXActionOutputReg.marshalM
+      exact ((nxOutputReg_wire v bs v2 _ _ _ _ hn h).2 (by omega)).len_ok
+    · act_leaf d v hk h NXActionCTClear.marshalM
+      exact ((nxCTClear_wire v bs v2 _ _ _ _ hn h).2 (by omega)).len_ok
+    · act_leaf d v hk h NXActionDecTTL.marshalM
+      exact ((nxDecTTL_wire v bs v2 _ _ _ _ hn h).2 (by omega)).len_ok
+    · act_leaf d v hk h NXActionDecTTLCntIDs.marshalM
+      exact ((nxDecTTLCntIDs_wire v bs v2 _ _ _ _ hn h).2 (by omega)).len_ok
+  · simp only [nxComputedKinds, List.mem_cons, List.mem_nil_iff, or_false] at hk
+    rcases hk with hk | hk | hk | hk | hk | hk
+    · act_leaf d v hk h NXActionController.marshalM
+      exact (nxController_wire v bs v2 _ _ _ _ hn h).2.len_ok
+    · act_leaf d v hk h NXActionNote.marshalM
+      exact ((nxNote_wire v bs v2 _ _ _ _ hn h).2 (by omega)).len_ok
+    · act_leaf d v hk h NXActionLearn.marshalM
+      exact ((nxLearn_wire v bs v2 _ _ _ _ hn h).2 (by omega)).len_ok
+    · act_leaf d v hk h NXActionRegLoad2.marshalM
+      exact (nxRegLoad2_wire v bs v2 _ _ _ _ hn h).2.1.len_ok
+    · act_leaf d v hk h NXActionCTNAT.marshalM
+      exact ((nxCTNAT_wire v bs v2 _ _ _ _ hn h).2.2 (by omega)).len_ok
+    · have e : Action.marshalD (d + 1) v = NXActionConnTrack.marshalWith (Action.lenD d) (Action.marshalD d) v := by
+        simp [Action.marshalD, hk]
+      rw [e] at h
+      exact ((nxConnTrack_wire _ _ v bs v2 _ _ _ _ hn h).2 (by omega)).len_ok
+
+/-- (a)+(b) through Action.MarshalBinary() -/
+theorem action_declares (v : V) (hwf : ActionWF v) (bs : Bytes) (v2 : V) (h : Action.marshalM v = .ok (bs, v2)) :
+    Declares bs := action_declaresD Action.encDepth v hwf bs v2 h
+
+/-! ### WALK: a receiver that follows declared lengths only -/
+
+/-- the declared length of the element at the start of what remains: the type(2) length(2) convention of actions,
+    instructions, hello elements, properties -/
+def declared22 (bs : Bytes) : Nat := beAt bs 2 2
+
+theorem declares_selfDelim (b : Bytes) (hd : Declares b) : SelfDelim declared22 b := by
+  obtain ⟨a, h8, _⟩ := hd
+  refine ⟨by omega, fun tail => ?_⟩
+  unfold declared22
+  rw [beAt_append_left b tail 2 2 (by omega), a]
+
+/-- WALK (generic): the concatenation of elements that each declare their own size is walked — using nothing but the
+    length words — into exactly those elements, in order, ending exactly at the last byte -/
+theorem walk_declared (bss : List Bytes) (hd : ∀ b ∈ bss, Declares b) :
+    walkBy declared22 (bss.length + 1) bss.flatten = some bss :=
+  walkBy_flatten declared22 bss (fun b hb => declares_selfDelim b (hd b hb)) _ (Nat.lt_succ_self _)
+
+theorem flatten_aligned (bss : List Bytes) (h : ∀ b ∈ bss, b.length % 8 = 0) : bss.flatten.length % 8 = 0 := by
+  induction bss with
+  | nil => rfl
+  | cons b bs ih =>
+    have h1 := h b (by simp)
+    have h2 := ih (fun x hx => h x (by simp [hx]))
+    simp only [List.flatten_cons, List.length_append]
+    omega
+
+/-- WALK of an InstrActions (apply / write actions) whose actions are well-formed (`as1`: the actions as Len() leaves
+    them — identical to `as` unless a CTNAT / conntrack action had an unrounded stored length):
+    the instruction declares exactly its bytes; walking the bytes after the 8-byte instruction header by declared
+    lengths visits exactly the encodings of the actions, in order, and ends exactly at the instruction's last byte;
+    everything is 8-byte aligned -/
+theorem instrActions_walk (ty : Nat) (x : V) (pad : Bytes) (as : List V) (ls : List UInt16) (as1 : List V)
+    (hm : mapM2 Action.lenM as = .ok (ls, as1)) (hwf : ∀ a ∈ as1, ActionWF a) (bs : Bytes) (v2 : V)
+    (h : InstrActions.marshalM (.obj "InstrActions" [.obj "InstrHeader" [.num ty, x], .bytes pad, .list as]) = .ok (bs, v2))
+    (hlt : bs.length < 65536) :
+    ∃ bss as2, mapM2 Action.marshalM as1 = .ok (bss, as2) ∧ beAt bs 2 2 = bs.length ∧
+      walkBy declared22 (bss.length + 1) (bs.drop 8) = some bss ∧ bs.length = 8 + bss.flatten.length ∧
+      bs.length % 8 = 0 := by
+  obtain ⟨_, a2, _, ls', as1', bss, as2, hm', hmm, e⟩ := instrActions_wire ty x pad as bs v2 h hlt
+  rw [hm] at hm'
+  cases hm'
+  have hd : ∀ b ∈ bss, Declares b :=
+    mapM2_forall_bytes Action.marshalM Declares as1 bss as2 hmm (fun a ha b a' hb => action_declares a (hwf a ha) b a' hb)
+  have hlen : bs.length = 8 + bss.flatten.length := by
+    have h8 : 8 ≤ bs.length := by
+      have := a2
+      by_cases hc : 8 ≤ bs.length
+      · exact hc
+      · exfalso
+        -- the instruction header alone is 8 bytes: 4 header bytes and 4 pad bytes precede the actions
+        obtain ⟨_, _, _, _, _, _, hb, _, _, _, _, hhb, hbl, _, e2⟩ := C06b.instrActions_embeds _ bs v2 h
+        rw [e2] at hc
+        simp [hbl, makeCopy_length] at hc
+        omega
+    have : (bs.drop 8).length = bss.flatten.length := by rw [e]
+    simp only [List.length_drop] at this
+    omega
+  refine ⟨bss, as2, hmm, a2, ?_, hlen, ?_⟩
+  · rw [e]; exact walk_declared bss hd
+  · have := flatten_aligned bss (fun b hb => (hd b hb).2.2)
+    omega
+
+/-- WALK of a Bucket whose actions are well-formed: the bucket declares exactly its bytes; walking the bytes after the
+    16 fixed bytes by declared lengths visits exactly the encodings of the actions and ends at the bucket's last byte -/
+theorem bucket_walk (v : V) (as : List V) (ls : List UInt16) (as1 : List V) (hf : v.fields[5]? = some (.list as))
+    (hm : mapM2 Action.lenM as = .ok (ls, as1)) (hwf : ∀ a ∈ as1, ActionWF a) (bs : Bytes) (v2 : V)
+    (h : Bucket.marshalM v = .ok (bs, v2)) (hlt : bs.length ≤ 65528) :
+    ∃ bss as2, mapM2 Action.marshalM as1 = .ok (bss, as2) ∧ beAt bs 0 2 = bs.length ∧
+      walkBy declared22 (bss.length + 1) (bs.drop 16) = some bss ∧ bs.length = 16 + bss.flatten.length ∧
+      bs.length % 8 = 0 := by
+  obtain ⟨ls', as', as1', bss, as2, hf', hm', hmm, a, _, c, d⟩ := bucket_wire v bs v2 h
+  rw [hf] at hf'
+  cases hf'
+  rw [hm] at hm'
+  cases hm'
+  obtain ⟨b1, b2⟩ := bucket_ok v bs v2 h hlt
+  have hd : ∀ b ∈ bss, Declares b :=
+    mapM2_forall_bytes Action.marshalM Declares as1 bss as2 hmm (fun a ha b a' hb => action_declares a (hwf a ha) b a' hb)
+  have hfa := flatten_aligned bss (fun b hb => (hd b hb).2.2)
+  -- sizes: Len() of each action is its encoded size, so Σ = the flattened length, already a multiple of 8: no padding
+  have hlens := mapM2_lengths Action.lenM Action.marshalM as ls as1 bss as2 hm hmm
+    (fun x _ l y b z hx hy => C06b.action_size y l y b z (Action.lenM_idem x l y hx) hy)
+  have hflat : bss.flatten.length = (ls.map UInt16.toNat).sum := by rw [flatten_length_sum, hlens]
+  have hge : 16 + bss.flatten.length ≤ bs.length := by
+    have h1 : ((bs.drop 16).take bss.flatten.length).length = bss.flatten.length := by rw [c]
+    simp only [List.length_take, List.length_drop] at h1
+    have h2 : 16 ≤ bs.length := by
+      have : 8 ≤ 16 := by decide
+      have h3 : (bs.drop (16 + bss.flatten.length)).length =
+          (Model.round8 (16 + sum16 ls)).toNat - (16 + bss.flatten.length) := by rw [d]; simp
+      simp only [List.length_drop] at h3
+      rw [a] at b1
+      have hs : (sum16 ls).toNat = bss.flatten.length := by rw [hflat]; exact sum16_toNat ls (by omega)
+      have hp : (2 : Nat) ^ 16 = 65536 := rfl
+      have h16 : (16 : UInt16).toNat = 16 := rfl
+      have e16 : (16 + sum16 ls : UInt16).toNat = 16 + bss.flatten.length := by
+        rw [UInt16.toNat_add, hs, h16, hp]; omega
+      have r8 := round8_ge (16 + sum16 ls) (by rw [e16]; omega)
+      omega
+    omega
+  have hs : (sum16 ls).toNat = bss.flatten.length := by rw [hflat]; exact sum16_toNat ls (by omega)
+  have hp : (2 : Nat) ^ 16 = 65536 := rfl
+  have h16 : (16 : UInt16).toNat = 16 := rfl
+  have e16 : (16 + sum16 ls : UInt16).toNat = 16 + bss.flatten.length := by
+    rw [UInt16.toNat_add, hs, h16, hp]; omega
+  have r8 : (Model.round8 (16 + sum16 ls)).toNat = 16 + bss.flatten.length := by
+    have := round8_of_aligned (16 + sum16 ls) (by rw [e16]; omega)
+    rw [this, e16]
+  have hlen : bs.length = 16 + bss.flatten.length := by rw [← b1, a, r8]
+  have hdrop : bs.drop 16 = bss.flatten := by
+    have : (bs.drop 16).take bss.flatten.length = bs.drop 16 :=
+      List.take_of_length_le (by simp only [List.length_drop]; omega)
+    rw [← this, c]
+  exact ⟨bss, as2, hmm, b1, by rw [hdrop]; exact walk_declared bss hd, hlen, b2⟩
+
+/-! ### the constructors build well-formed actions -/
+
+theorem actionWF_output (p : Nat) : ActionWF (ActionOutput.new p) :=
+  ⟨16, _, rfl, by decide, by decide, Or.inl ⟨(by show "ActionOutput" ∈ plainWFKinds; decide), _, rfl⟩⟩
+theorem actionWF_setqueue (q : Nat) : ActionWF (ActionSetqueue.new q) :=
+  ⟨8, _, rfl, by decide, by decide, Or.inl ⟨(by show "ActionSetqueue" ∈ plainWFKinds; decide), _, rfl⟩⟩
+theorem actionWF_group (g : Nat) : ActionWF (ActionGroup.new g) :=
+  ⟨8, _, rfl, by decide, by decide, Or.inl ⟨(by show "ActionGroup" ∈ plainWFKinds; decide), _, rfl⟩⟩
+theorem actionWF_decNwTtl : ActionWF ActionDecNwTtl.new :=
+  ⟨8, _, rfl, by decide, by decide, Or.inl ⟨(by show "ActionDecNwTtl" ∈ plainWFKinds; decide), _, rfl⟩⟩
+theorem actionWF_push (ty et : Nat) : ActionWF (ActionPush.new ty et) :=
+  ⟨8, _, rfl, by decide, by decide, Or.inl ⟨(by show "ActionPush" ∈ plainWFKinds; decide), _, rfl⟩⟩
+theorem actionWF_popVlan : ActionWF ActionPopVlan.new :=
+  ⟨8, _, rfl, by decide, by decide, Or.inl ⟨(by show "ActionPopVlan" ∈ plainWFKinds; decide), _, rfl⟩⟩
+theorem actionWF_popMpls (et : Nat) : ActionWF (ActionPopMpls.new et) :=
+  ⟨8, _, rfl, by decide, by decide, Or.inl ⟨(by show "ActionPopMpls" ∈ plainWFKinds; decide), _, rfl⟩⟩
+theorem actionWF_conjunction (c nc id : Nat) : ActionWF (NXActionConjunction.new c nc id) :=
+  ⟨16, _, rfl, by decide, by decide, Or.inr (Or.inl ⟨(by show "NXActionConjunction" ∈ nxStoredKinds; decide), by decide, _, _, _, rfl⟩)⟩
+theorem actionWF_regLoad (ofs : Nat) (dst : V) (val : Nat) : ActionWF (NXActionRegLoad.new ofs dst val) :=
+  ⟨24, _, rfl, by decide, by decide, Or.inr (Or.inl ⟨(by show "NXActionRegLoad" ∈ nxStoredKinds; decide), by decide, _, _, _, rfl⟩)⟩
+theorem actionWF_regMove (nb so dso : Nat) (sf df : V) : ActionWF (NXActionRegMove.new nb so dso sf df) :=
+  ⟨24, _, rfl, by decide, by decide, Or.inr (Or.inl ⟨(by show "NXActionRegMove" ∈ nxStoredKinds; decide), by decide, _, _, _, rfl⟩)⟩
+theorem actionWF_resubmitTable (sub ip t ct : Nat) : ActionWF (NXActionResubmitTable.new sub ip t ct) :=
+  ⟨16, _, rfl, by decide, by decide, Or.inr (Or.inl ⟨(by show "NXActionResubmitTable" ∈ nxStoredKinds; decide), by decide, _, _, _, rfl⟩)⟩
+theorem actionWF_outputReg (sf : V) (ofs ml : Nat) : ActionWF (NXActionOutputReg.new sf ofs ml) :=
+  ⟨24, _, rfl, by decide, by decide, Or.inr (Or.inl ⟨(by show "NXActionOutputReg" ∈ nxStoredKinds; decide), by decide, _, _, _, rfl⟩)⟩
+theorem actionWF_ctClear : ActionWF NXActionCTClear.new :=
+  ⟨16, _, rfl, by decide, by decide, Or.inr (Or.inl ⟨(by show "NXActionCTClear" ∈ nxStoredKinds; decide), by decide, _, _, _, rfl⟩)⟩
+theorem actionWF_decTTL : ActionWF NXActionDecTTL.new :=
+  ⟨16, _, rfl, by decide, by decide, Or.inr (Or.inl ⟨(by show "NXActionDecTTL" ∈ nxStoredKinds; decide), by decide, _, _, _, rfl⟩)⟩
+theorem actionWF_controller (id : Nat) : ActionWF (NXActionController.new id) :=
+  ⟨16, _, rfl, by decide, by decide, Or.inr (Or.inr ⟨(by show "NXActionController" ∈ nxComputedKinds; decide), by decide, _, _, _, _, rfl⟩)⟩
+theorem actionWF_note : ActionWF NXActionNote.new :=
+  ⟨16, _, rfl, by decide, by decide, Or.inr (Or.inr ⟨(by show "NXActionNote" ∈ nxComputedKinds; decide), by decide, _, _, _, _, rfl⟩)⟩
+theorem actionWF_learn : ActionWF NXActionLearn.new :=
+  ⟨32, _, rfl, by decide, by decide, Or.inr (Or.inr ⟨(by show "NXActionLearn" ∈ nxComputedKinds; decide), by decide, _, _, _, _, rfl⟩)⟩
+theorem actionWF_ctNAT : ActionWF NXActionCTNAT.new :=
+  ⟨16, _, rfl, by decide, by decide, Or.inr (Or.inr ⟨(by show "NXActionCTNAT" ∈ nxComputedKinds; decide), by decide, _, _, _, _, rfl⟩)⟩
+theorem actionWF_connTrack : ActionWF NXActionConnTrack.new :=
+  ⟨24, _, rfl, by decide, by decide, Or.inr (Or.inr ⟨(by show "NXActionConnTrack" ∈ nxComputedKinds; decide), by decide, _, _, _, _, rfl⟩)⟩
+
+/-- the hypotheses of `instrActions_walk` are satisfiable: an apply-actions instruction with an output action and a
+    conjunction action encodes, and the walk of its 40 bytes finds the two actions -/
+example : (InstrActions.marshalM (.obj "InstrActions" [.obj "InstrHeader" [.num Gen.openflow13.InstrType_APPLY_ACTIONS, .num 8],
+      .bytes (zeros 4), .list [ActionOutput.new 7, NXActionConjunction.new 1 2 3]])).isOk = true ∧
+    ∀ bs v2, InstrActions.marshalM (.obj "InstrActions" [.obj "InstrHeader" [.num Gen.openflow13.InstrType_APPLY_ACTIONS, .num 8],
+      .bytes (zeros 4), .list [ActionOutput.new 7, NXActionConjunction.new 1 2 3]]) = .ok (bs, v2) → bs.length < 65536 →
+      ∃ bss, beAt bs 2 2 = bs.length ∧ walkBy declared22 (bss.length + 1) (bs.drop 8) = some bss ∧ bss.length = 2 := by
+  refine ⟨rfl, fun bs v2 h hlt => ?_⟩
+  have hm : mapM2 Action.lenM [ActionOutput.new 7, NXActionConjunction.new 1 2 3] =
+      .ok ([16, 16], [ActionOutput.new 7, NXActionConjunction.new 1 2 3]) := rfl
+  have hwf : ∀ a ∈ [ActionOutput.new 7, NXActionConjunction.new 1 2 3], ActionWF a := by
+    intro a ha
+    simp only [List.mem_cons, List.mem_nil_iff, or_false] at ha
+    rcases ha with rfl | rfl
+    · exact actionWF_output 7
+    · exact actionWF_conjunction 1 2 3
+  obtain ⟨bss, as2, hmm, a, w, _, _⟩ := instrActions_walk _ _ _ _ _ _ hm hwf bs v2 h hlt
+  exact ⟨bss, a, w, (mapM2_length _ _ _ _ hmm).1⟩
+
+/-- a match field reports at least its 4 header bytes -/
+theorem matchField_len_ge (v : V) (l : UInt16) (v1 : V) (h : MatchField.lenM v = .ok (l, v1)) : 4 ≤ l.toNat := by
+  have hle := C06b.matchField_len_le v l v1 h
+  unfold MatchField.lenM at h
+  split at h
+  · rename_i c f hm ln eid val mask
+    obtain ⟨⟨lv, val'⟩, hv, h2⟩ := bind_ok_inv _ _ _ h
+    have b1 := C06.payload_len_le _ _ _ hv
+    have hn : 4 ≤ (if eid = 0 then (4 : UInt16) else 8).toNat := by split <;> decide
+    have hn2 : (if eid = 0 then (4 : UInt16) else 8).toNat ≤ 8 := by split <;> decide
+    have hp : (2 : Nat) ^ 16 = 65536 := rfl
+    simp only at h2
+    split at h2
+    · have el : l = (if eid = 0 then (4 : UInt16) else 8) + lv := by cases h2; rfl
+      rw [el, UInt16.toNat_add, hp]; omega
+    · obtain ⟨⟨lm, mask'⟩, hmk, h3⟩ := bind_ok_inv _ _ _ h2
+      have b2 := C06.payload_len_le _ _ _ hmk
+      have el : l = (if eid = 0 then (4 : UInt16) else 8) + lv + lm := by cases h3; rfl
+      rw [el, UInt16.toNat_add, UInt16.toNat_add, hp]; omega
+  · exact absurd h (by simp)
+
+/-- NewActionSetField(field) builds a well-formed action, for ANY field whose Len() succeeds -/
+theorem actionWF_setField (f v : V) (hn : ActionSetField.new f = .ok v) : ActionWF v := by
+  obtain ⟨l, v1, hl, ha⟩ := actionSetField_new_wf f v hn
+  have hk : v.kind = "ActionSetField" := by
+    unfold ActionSetField.lenM at hl
+    split at hl
+    · rfl
+    · exact absurd hl (by simp)
+  have e : Action.lenM v = ActionSetField.lenM v := by
+    simp [Action.lenM, Action.lenD, Action.lenLeaf, hk]
+  have hal := C06b.actionSetField_aligned v l v1 hl
+  have h8 : 8 ≤ l.toNat := by
+    have hl' := hl
+    unfold ActionSetField.lenM at hl'
+    split at hl'
+    · obtain ⟨⟨fl, f'⟩, hfl, hl2⟩ := bind_ok_inv _ _ _ hl'
+      have el : l = Model.round8 (4 + fl) := by cases hl2; rfl
+      have g4 := matchField_len_ge _ _ _ hfl
+      have l4 := C06b.matchField_len_le _ _ _ hfl
+      have e4 : (4 + fl : UInt16).toNat = 4 + fl.toNat := by
+        rw [UInt16.toNat_add]
+        have hp : (2 : Nat) ^ 16 = 65536 := rfl
+        have h4 : (4 : UInt16).toNat = 4 := rfl
+        rw [hp, h4]; omega
+      have r := round8_ge (4 + fl) (by omega)
+      rw [el]; omega
+    · exact absurd hl' (by simp)
+  exact ⟨l, v1, (by show Action.lenM v = _; rw [e]; exact hl), h8, hal, Or.inl ⟨by rw [hk]; decide, _, ha⟩⟩
+
+/-- NewNXActionRegLoad2(field) builds a well-formed action, for ANY field whose Len() succeeds -/
+theorem actionWF_regLoad2 (f : V) (fl : UInt16) (f' : V) (hnn : f ≠ .nil) (hfl : MatchField.lenM f = .ok (fl, f')) :
+    ActionWF (NXActionRegLoad2.new f) := by
+  have ef := MatchField.lenM_pure _ _ _ hfl
+  subst ef
+  have g4 := matchField_len_ge _ _ _ hfl
+  have l4 := C06b.matchField_len_le _ _ _ hfl
+  have e4 : (10 + fl : UInt16).toNat = 10 + fl.toNat := by
+    rw [UInt16.toNat_add]
+    have hp : (2 : Nat) ^ 16 = 65536 := rfl
+    have h10 : (10 : UInt16).toNat = 10 := rfl
+    rw [hp, h10]; omega
+  have r := round8_ge (10 + fl) (by omega)
+  have ral := round8_aligned (10 + fl)
+  have hl : Action.lenM (NXActionRegLoad2.new f') = .ok (Model.round8 (10 + fl), NXActionRegLoad2.new f') := by
+    have e : Action.lenM (NXActionRegLoad2.new f') = NXActionRegLoad2.lenM (NXActionRegLoad2.new f') := by
+      simp [Action.lenM, Action.lenD, Action.lenLeaf, NXActionRegLoad2.new, V.kind]
+    rw [e]
+    cases f' with
+    | nil => exact absurd rfl hnn
+    | num n => simp only [NXActionRegLoad2.new, NXActionRegLoad2.lenM, hfl, Res.bind_ok]
+    | bytes b => simp only [NXActionRegLoad2.new, NXActionRegLoad2.lenM, hfl, Res.bind_ok]
+    | list xs => simp only [NXActionRegLoad2.new, NXActionRegLoad2.lenM, hfl, Res.bind_ok]
+    | obj k fs => simp only [NXActionRegLoad2.new, NXActionRegLoad2.lenM, hfl, Res.bind_ok]
+  exact ⟨_, _, hl, by omega, round8_aligned _, Or.inr (Or.inr ⟨by show "NXActionRegLoad2" ∈ nxComputedKinds; decide,
+    by omega, _, _, _, _, rfl⟩)⟩
+
+/-! ### the header-only actions (known finding) -/
+
+/-- ActionHeader (the library's representation of COPY_TTL_OUT / COPY_TTL_IN / DEC_MPLS_TTL / POP_PBB, types 11, 12,
+    16, 27; also what ActionMplsTtl / ActionNwTtl inherit): ALWAYS 4 bytes — the stored type and length words and
+    nothing else.  The format requires 8 (4 bytes of padding).  There is no constructor; a value with stored Length 8
+    declares 8 and occupies 4, a value with stored Length 4 is self-consistent but not a legal OpenFlow action. -/
+theorem actionHeader_wire (ty ln : Nat) (bs : Bytes) (v2 : V)
+    (h : ActionHeader.marshalM (.obj "ActionHeader" [.num ty, .num ln]) = .ok (bs, v2)) :
+    bs.length = 4 ∧ beAt bs 0 2 = ty % 65536 ∧ beAt bs 2 2 = ln % 65536 ∧ bs.length % 8 ≠ 0 := by
+  simp only [ActionHeader.marshalM, ActionHeader.bytes, Res.bind_ok] at h
+  obtain ⟨e, _⟩ := same_ok _ _ _ _ h
+  subst e
+  obtain ⟨a, b⟩ := tlv_of_head (n16 ty) (n16 ln) _ [] (List.append_nil _).symm
+  exact ⟨rfl, by rw [a, n16_toNat'], by rw [b, n16_toNat'], by simp⟩
+
+/-! ### the Instruction interface and the walk of a FlowMod -/
+
+/-- WELL-FORMED INSTRUCTION as the constructors / AddAction leave it: goto-table with Length 8, write-metadata with
+    Length 24, or an actions instruction with a numeric type whose actions (as Len() leaves them) are well-formed -/
+def InstrWF (v : V) : Prop :=
+  (v.kind = "InstrGotoTable" ∧ ∃ ty, ihdr v = some (ty, 8)) ∨
+  (v.kind = "InstrWriteMetadata" ∧ ∃ ty, ihdr v = some (ty, 24)) ∨
+  (∃ ty x pad as ls as1, v = .obj "InstrActions" [.obj "InstrHeader" [.num ty, x], .bytes pad, .list as] ∧
+    mapM2 Action.lenM as = .ok (ls, as1) ∧ ∀ a ∈ as1, ActionWF a)
+
+theorem instrWF_gotoTable (t : Nat) : InstrWF (InstrGotoTable.new t) := Or.inl ⟨rfl, _, rfl⟩
+theorem instrWF_writeMetadata (md mk : Nat) : InstrWF (InstrWriteMetadata.new md mk) := Or.inr (Or.inl ⟨rfl, _, rfl⟩)
+theorem instrWF_actions_new (ty : Nat) : InstrWF (InstrActions.new ty) :=
+  Or.inr (Or.inr ⟨ty, _, _, [], [], [], rfl, rfl, by intro a ha; simp at ha⟩)
+
+/-- (a)+(b) through the Instruction interface: every well-formed instruction shorter than 64 KiB declares exactly the
+    bytes it occupies, a positive multiple of 8 -/
+theorem instruction_declares (v : V) (hwf : InstrWF v) (bs : Bytes) (v2 : V) (h : Instruction.marshalM v = .ok (bs, v2))
+    (hlt : bs.length < 65536) : Declares bs := by
+  rcases hwf with ⟨hk, ty, hi⟩ | ⟨hk, ty, hi⟩ | ⟨ty, x, pad, as, ls, as1, rfl, hm, hwa⟩
+  · have e : Instruction.marshalM v = InstrGotoTable.marshalM v := by simp [Instruction.marshalM, hk]
+    rw [e] at h
+    obtain ⟨a, _, c⟩ := instrGotoTable_wire v bs v2 _ _ hi h
+    exact ⟨by rw [c, a], by omega, by omega⟩
+  · have e : Instruction.marshalM v = InstrWriteMetadata.marshalM v := by simp [Instruction.marshalM, hk]
+    rw [e] at h
+    obtain ⟨a, _, c⟩ := instrWriteMetadata_wire v bs v2 _ _ hi h
+    exact ⟨by rw [c, a], by omega, by omega⟩
+  · have e : Instruction.marshalM (.obj "InstrActions" [.obj "InstrHeader" [.num ty, x], .bytes pad, .list as]) =
+        InstrActions.marshalM (.obj "InstrActions" [.obj "InstrHeader" [.num ty, x], .bytes pad, .list as]) := by
+      simp [Instruction.marshalM, V.kind]
+    rw [e] at h
+    obtain ⟨bss, as2, _, a, _, hl, hal⟩ := instrActions_walk ty x pad as ls as1 hm hwa bs v2 h hlt
+    exact ⟨a, by omega, hal⟩
+
+/-- WALK of a FlowMod (any command but the two deletes) whose instructions — as Len() leaves them — are well-formed:
+    after the 8 header bytes, the 40 fixed bytes and the match, walking by declared lengths visits exactly the
+    encodings of the instructions, in order, and arrives exactly at the end of the message -/
+theorem flowMod_walk (v : V) (bs : Bytes) (v2 : V) (h : FlowMod.marshalM v = .ok (bs, v2)) (hlt : bs.length < 65536)
+    (hwf : ∀ is ls is1, v.fields[14]? = some (.list is) → mapM2 Instruction.lenM is = .ok (ls, is1) → ∀ i ∈ is1, InstrWF i) :
+    ∃ m mb m', v.fields[13]? = some m ∧ Match.marshalM m = .ok (mb, m') ∧
+      (bs.length = 48 + mb.length ∨
+       ∃ bss, walkBy declared22 (bss.length + 1) (bs.drop (48 + mb.length)) = some bss ∧
+         bs.length = 48 + mb.length + bss.flatten.length) := by
+  obtain ⟨hd, ck, cm, tid, cmd, it, ht, pr, bid, op, og, fl, pad, m, is, l, hb, mb, m', rfl, hhb, hbl, hmm, fixed, hfl, hcase⟩ :=
+    C06b.flowMod_embeds v bs v2 h
+  refine ⟨m, mb, m', rfl, hmm, ?_⟩
+  rcases hcase with ⟨_, e⟩ | ⟨_, ls, is1, bss, is2, hml, hmi, e⟩
+  · left; rw [e]; simp [hbl, hfl]; omega
+  · right
+    have hpre : (hb ++ fixed ++ mb).length = 48 + mb.length := by simp [hbl, hfl]; omega
+    have hlen : bs.length = 48 + mb.length + bss.flatten.length := by rw [e, List.length_append, hpre]
+    have hd : ∀ b ∈ bss, Declares b := by
+      intro b hb
+      obtain ⟨i, hi, i', hb'⟩ := mapM2_mem_bytes Instruction.marshalM is1 bss is2 hmi b hb
+      have := length_le_flatten bss b hb
+      exact instruction_declares i (hwf is ls is1 rfl hml i hi) b i' hb' (by omega)
+    refine ⟨bss, ?_, hlen⟩
+    rw [e, ← hpre, List.drop_left]
+    exact walk_declared bss hd
+
+/-! ### conntrack: the nested actions -/
+
+/-- NXActionConnTrack embeds its nested actions intact: when the nested encodings have the sizes the nested Len()
+    reported (`hsize`, true of the real Action functions by C06b.action_size), the pad field is the 3-byte array and the
+    total stays below 64 KiB, the encoding is the 24 fixed bytes followed by exactly the nested encodings, in order —
+    no padding, nothing dropped -/
+theorem nxConnTrack_embeds (subLen : V → R (UInt16 × V)) (sub : V → R (Bytes × V))
+    (hsize : ∀ x l y b z, subLen x = .ok (l, y) → sub y = .ok (b, z) → b.length = l.toNat)
+    (hd a b c d : V) (pad : Bytes) (f : V) (acts : List V) (hpad : pad.length ≤ 3) (bs : Bytes) (v2 : V)
+    (h : NXActionConnTrack.marshalWith subLen sub (.obj "NXActionConnTrack" [hd, a, b, c, d, .bytes pad, f, .list acts]) = .ok (bs, v2)) :
+    ∃ ls acts1 bss acts2, mapM2 subLen acts = .ok (ls, acts1) ∧ mapM2 sub acts1 = .ok (bss, acts2) ∧
+      (24 + bss.flatten.length < 65536 → bs.drop 24 = bss.flatten ∧ bs.length = 24 + bss.flatten.length) := by
+  unfold NXActionConnTrack.marshalWith at h
+  obtain ⟨⟨l, va⟩, hl, g1⟩ := bind_ok_inv _ _ _ h
+  clear h
+  simp only at g1
+  simp only [NXActionConnTrack.lenWith] at hl
+  obtain ⟨⟨l0, hd0⟩, hl0, hl2⟩ := bind_ok_inv _ _ _ hl
+  obtain ⟨e1, e2⟩ := same_ok _ _ _ _ hl0
+  subst e1; subst e2
+  obtain ⟨⟨ls, acts1⟩, hm, hl3⟩ := bind_ok_inv _ _ _ hl2
+  obtain ⟨h', hs, hl4⟩ := bind_ok_inv _ _ _ hl3
+  have el : l = n16 Gen.openflow13.NxActionHeaderLength + 14 + sum16 ls ∧
+      va = .obj "NXActionConnTrack" [h', a, b, c, d, .bytes pad, f, .list acts1] := by cases hl4; exact ⟨rfl, rfl⟩
+  obtain ⟨rfl, rfl⟩ := el
+  split at g1
+  · rename_i heq
+    cases heq
+    obtain ⟨hb, hhb, g2⟩ := bind_ok_inv _ _ _ g1
+    obtain ⟨buf, hf, g3⟩ := bind_ok_inv _ _ _ g2
+    obtain ⟨⟨buf', acts'⟩, hacts, g4⟩ := bind_ok_inv _ _ _ g3
+    have eb : bs = buf' := by cases g4; rfl
+    subst eb
+    obtain ⟨bss, hmm⟩ := marshalActs_mapM2 _ _ _ _ _ _ hacts
+    refine ⟨ls, acts1, bss, acts', hm, hmm, fun hlt => ?_⟩
+    have hlens := mapM2_lengths subLen sub acts ls acts1 bss acts' hm hmm (fun x _ l y b z hx hy => hsize x l y b z hx hy)
+    have hflat : bss.flatten.length = (ls.map UInt16.toNat).sum := by rw [flatten_length_sum, hlens]
+    have hsum : (sum16 ls).toNat = bss.flatten.length := by rw [hflat]; exact sum16_toNat ls (by omega)
+    have hp : (2 : Nat) ^ 16 = 65536 := rfl
+    have h10 : (n16 Gen.openflow13.NxActionHeaderLength).toNat = 10 := rfl
+    have h14 : (14 : UInt16).toNat = 14 := rfl
+    have eL : (n16 Gen.openflow13.NxActionHeaderLength + 14 + sum16 ls).toNat = 24 + bss.flatten.length := by
+      rw [UInt16.toNat_add, UInt16.toNat_add, hsum, h10, h14, hp]; omega
+    rw [eL] at hf
+    have hbl := NXActionHeader.bytes_length _ _ hhb
+    have hx := fill_all _ _ _
+      (by intro q hq; simp only [List.mem_cons, List.mem_nil_iff, or_false] at hq;
+          rcases hq with rfl | rfl | rfl | rfl | rfl | rfl | rfl <;> simp [pCopy, pU16, pU32, pU8, pCopyAdv, Piece.Tight, hpad])
+      (by simp only [piecesLen, pCopy, pU16, pU32, pU8, pCopyAdv, List.map_cons, List.map_nil, Piece.adv, List.sum_cons,
+            List.sum_nil, be16_length, be32_length, List.length_cons, List.length_nil, hbl]; omega) hf
+    have hpl : ∀ x1 x2 x3 x4 x5, piecesLen [pCopy hb, pU16 x1, pU32 x2, pU16 x3, pU8 x4, pCopyAdv pad 3, pU16 x5] = 24 := by
+      intro x1 x2 x3 x4 x5
+      simp [piecesLen, pCopy, pU16, pU32, pU8, pCopyAdv, Piece.adv, hbl]
+    rw [hpl] at hx
+    have hpre : ∀ x1 x2 x3 x4 x5, (piecesBytes [pCopy hb, pU16 x1, pU32 x2, pU16 x3, pU8 x4, pCopyAdv pad 3, pU16 x5]).length = 24 := by
+      intro x1 x2 x3 x4 x5
+      simp only [piecesBytes, pCopy, pU16, pU32, pU8, pCopyAdv, List.map_cons, List.map_nil, Piece.bytes,
+        List.flatten_cons, List.flatten_nil, List.length_append, be16_length, be32_length, List.length_cons, List.length_nil,
+        hbl, List.length_take, zeros_length]
+      omega
+    have e24 : 24 + bss.flatten.length - 24 = bss.flatten.length := by omega
+    rw [e24] at hx
+    rw [hx, ← hpre _ _ _ _ _] at hacts
+    have := marshalActs_exact sub acts1 _ _ _ _ bss hacts hmm (Nat.le_refl _)
+    rw [this, Nat.sub_self]
+    have hdrop : ∀ (pre m : Bytes) (k : Nat), pre.length = k → (pre ++ m).drop k = m := by
+      intro pre m k hk; subst hk; exact List.drop_left
+    simp only [zeros, List.replicate_zero, List.append_nil]
+    exact ⟨hdrop _ _ 24 (hpre _ _ _ _ _), by rw [List.length_append, hpre]⟩
+  · exact absurd g1 (by simp)
+
+/-- WALK of a conntrack action whose nested actions (as Len() leaves them) are well-formed: after the 24 fixed bytes,
+    walking by declared lengths visits exactly the nested actions' encodings and ends at the action's last byte,
+    which is where its own length word says it ends -/
+theorem nxConnTrack_walk (hd a b c d : V) (pad : Bytes) (f : V) (acts : List V) (hpad : pad.length ≤ 3) (bs : Bytes) (v2 : V)
+    (ty ln vd sb : Nat) (hn : nxhdr (.obj "NXActionConnTrack" [hd, a, b, c, d, .bytes pad, f, .list acts]) = some (ty, ln, vd, sb))
+    (h : NXActionConnTrack.marshalM (.obj "NXActionConnTrack" [hd, a, b, c, d, .bytes pad, f, .list acts]) = .ok (bs, v2))
+    (hwf : ∀ ls acts1, mapM2 (Action.lenD Action.encDepth) acts = .ok (ls, acts1) → ∀ x ∈ acts1, ActionWFD 7 x)
+    (hlt : ∀ ls acts1, mapM2 (Action.lenD Action.encDepth) acts = .ok (ls, acts1) → 24 + (ls.map UInt16.toNat).sum < 65536) :
+    ∃ bss, beAt bs 2 2 = bs.length ∧ walkBy declared22 (bss.length + 1) (bs.drop 24) = some bss ∧
+      bs.length = 24 + bss.flatten.length ∧ bs.length % 8 = 0 := by
+  obtain ⟨ls, acts1, bss, acts2, hm, hmm, hfit⟩ := nxConnTrack_embeds (Action.lenD Action.encDepth) (Action.marshalD Action.encDepth)
+    (fun x l y bx z hx hy => C06b.action_sizeD _ y l y bx z (Action.lenD_idem _ x l y hx) hy) hd a b c d pad f acts hpad bs v2 h
+  obtain ⟨_, hw⟩ := nxConnTrack_wire _ _ _ bs v2 _ _ _ _ hn h
+  have hd' : ∀ bx ∈ bss, Declares bx := by
+    intro bx hbx
+    obtain ⟨x, hx, x', hbx'⟩ := mapM2_mem_bytes _ acts1 bss acts2 hmm bx hbx
+    exact action_declaresD 7 x (hwf ls acts1 hm x hx) bx x' hbx'
+  -- the allocated size is 24 + Σ Len(), and each nested Len() is the nested encoding's size
+  have hlens := mapM2_lengths _ _ acts ls acts1 bss acts2 hm hmm
+    (fun x _ l y bx z hx hy => C06b.action_sizeD _ y l y bx z (Action.lenD_idem _ x l y hx) hy)
+  have hflat : bss.flatten.length = (ls.map UInt16.toNat).sum := by rw [flatten_length_sum, hlens]
+  have hbig : 24 + bss.flatten.length < 65536 := by rw [hflat]; exact hlt ls acts1 hm
+  obtain ⟨e1, e2⟩ := hfit hbig
+  have hfa := flatten_aligned bss (fun bx hbx => (hd' bx hbx).2.2)
+  exact ⟨bss, (hw (by omega)).len_ok, by rw [e1]; exact walk_declared bss hd', e2, by omega⟩
+
+/-! ### learn flow-mod specs (no length word: the size follows from the 16-bit spec header) -/
+
+/-- NXLearnSpec with a header as the five NewLearnHeader… constructors build it (stored header size 2): the spec header
+    word is at offset 0, and the spec occupies 2 + (immediate source: 2·⌈nBits/16⌉, field source: 6) + (output spec: 0,
+    otherwise a 6-byte destination) bytes — the size an OVS receiver derives from that header word -/
+theorem nxLearnSpec_wire (src dst out nb : Nat) (sf df sv : V) (bs : Bytes) (v2 : V)
+    (h : NXLearnSpec.marshalM (.obj "NXLearnSpec" [.obj "NXLearnSpecHeader" [.num src, .num dst, .num out, .num nb, .num 2],
+      sf, df, sv]) = .ok (bs, v2)) :
+    bs.length = ((2 : UInt16) + (if src ≠ 0 then NXLearnSpec.srcLen nb else 6) + (if out = 0 then 6 else 0)).toNat ∧
+    (2 ≤ bs.length → beAt bs 0 2 = (NXLearnSpecHeader.word src dst out nb).toNat) := by
+  have hlen : NXLearnSpec.lenM (.obj "NXLearnSpec" [.obj "NXLearnSpecHeader" [.num src, .num dst, .num out, .num nb, .num 2],
+      sf, df, sv]) = .ok ((if out = 0 then (if src ≠ 0 then n16 2 + NXLearnSpec.srcLen nb else n16 2 + 6) + 6
+        else (if src ≠ 0 then n16 2 + NXLearnSpec.srcLen nb else n16 2 + 6)), _) := rfl
+  have hsz := C06b.nxLearnSpec_size _ _ _ _ _ hlen h
+  constructor
+  · rw [hsz]
+    have e2 : n16 2 = 2 := rfl
+    rw [e2]
+    by_cases hs : src ≠ 0 <;> by_cases ho : out = 0 <;> simp [hs, ho]
+  · intro h2
+    unfold NXLearnSpec.marshalM at h
+    obtain ⟨l, _, g1⟩ := bind_ok_inv _ _ _ h
+    simp only at g1
+    split at g1
+    · rename_i heq
+      cases heq
+      obtain ⟨hb, hhb, g2⟩ := bind_ok_inv _ _ _ g1
+      have ehb : hb = be16 (NXLearnSpecHeader.word src dst out nb) := by
+        simp only [NXLearnSpecHeader.bytes] at hhb
+        have := fill_all _ _ _ (by intro p hp; simp at hp; subst hp; trivial) (by simp [piecesLen, Piece.adv]; decide) hhb
+        rw [this]
+        simp [piecesBytes, piecesLen, Piece.bytes, Piece.adv, zeros]
+        rfl
+      subst ehb
+      obtain ⟨⟨sd, k⟩, _, g3⟩ := bind_ok_inv _ _ _ g2
+      simp only at g3
+      have key : ∀ (qs : List Piece) (out' : Bytes), fill l.toNat (pCopy (be16 (NXLearnSpecHeader.word src dst out nb)) :: qs) = .ok out' →
+          2 ≤ out'.length → beAt out' 0 2 = (NXLearnSpecHeader.word src dst out nb).toNat := by
+        intro qs out' hf hl2
+        have hl := fill_length _ _ _ hf
+        have hh := fill_head _ _ _ _ (by simp; omega) hf
+        rw [hh]; exact beAt_be16 _ _
+      split at g3
+      · obtain ⟨⟨db, df'⟩, _, g4⟩ := bind_ok_inv _ _ _ g3
+        obtain ⟨o, hf, g5⟩ := bind_ok_inv _ _ _ g4
+        obtain ⟨e, _⟩ := same_ok _ _ _ _ g5
+        subst e
+        exact key _ _ hf h2
+      · obtain ⟨o, hf, g5⟩ := bind_ok_inv _ _ _ g3
+        obtain ⟨e, _⟩ := same_ok _ _ _ _ g5
+        subst e
+        exact key _ _ hf h2
+    · exact absurd g1 (by simp)
+
+/-- the five learn-header constructors store header size 2 -/
+theorem nxLearnSpecHeader_new_shape (src dst out nb : Nat) : NXLearnSpecHeader.new src dst out nb =
+    .obj "NXLearnSpecHeader" [.num src, .num dst, .num out, V.u16 (n16 nb), .num 2] := rfl
+
+/-! ### the hypotheses of the walk theorems are satisfiable -/
+
+/-- a FlowMod as NewFlowMod() + AddInstruction(goto-table 1) + AddInstruction(apply-actions [output 7]) builds it -/
+def exampleFlowMod : V :=
+  .obj "FlowMod" [.obj "Header" [.num 4, .num Gen.openflow13.Type_FlowMod, .num 8, .num 7],
+    .num 0, .num 0, .num 0, .num Gen.openflow13.FC_ADD, .num 0, .num 0, .num 1000, .num 4294967295,
+    .num Gen.openflow13.P_ANY, .num Gen.openflow13.OFPG_ANY, .num 0, .bytes [], Match.new,
+    .list [InstrGotoTable.new 1,
+      .obj "InstrActions" [.obj "InstrHeader" [.num Gen.openflow13.InstrType_APPLY_ACTIONS, .num 24], .bytes (zeros 4),
+        .list [ActionOutput.new 7]]]]
+
+/-- `flowMod_walk` applies to it: the encoder succeeds, and every receiver that follows the declared lengths finds the
+    two instructions after header, fixed part and match, and ends at the last byte -/
+example : (FlowMod.marshalM exampleFlowMod).isOk = true ∧
+    ∀ bs v2, FlowMod.marshalM exampleFlowMod = .ok (bs, v2) → bs.length < 65536 →
+      ∃ mb bss, (bs.length = 48 + mb ∨ (walkBy declared22 (bss.length + 1) (bs.drop (48 + mb)) = some bss ∧
+        bs.length = 48 + mb + bss.flatten.length)) := by
+  refine ⟨rfl, fun bs v2 h hlt => ?_⟩
+  obtain ⟨m, mb, m', _, _, hcase⟩ := flowMod_walk exampleFlowMod bs v2 h hlt (by
+    intro is ls is1 hf hm i hi
+    have e : is = [InstrGotoTable.new 1,
+      .obj "InstrActions" [.obj "InstrHeader" [.num Gen.openflow13.InstrType_APPLY_ACTIONS, .num 24], .bytes (zeros 4),
+        .list [ActionOutput.new 7]]] := by
+      simp only [exampleFlowMod, V.fields] at hf
+      injection hf with hf'
+      injection hf' with hf''
+      exact hf''.symm
+    subst e
+    have hm' : mapM2 Instruction.lenM [InstrGotoTable.new 1,
+      .obj "InstrActions" [.obj "InstrHeader" [.num Gen.openflow13.InstrType_APPLY_ACTIONS, .num 24], .bytes (zeros 4),
+        .list [ActionOutput.new 7]]] = .ok ([8, 24], [InstrGotoTable.new 1,
+      .obj "InstrActions" [.obj "InstrHeader" [.num Gen.openflow13.InstrType_APPLY_ACTIONS, .num 24], .bytes (zeros 4),
+        .list [ActionOutput.new 7]]]) := rfl
+    rw [hm'] at hm
+    cases hm
+    simp only [List.mem_cons, List.mem_nil_iff, or_false] at hi
+    rcases hi with rfl | rfl
+    · exact instrWF_gotoTable 1
+    · exact Or.inr (Or.inr ⟨_, _, _, _, [16], [ActionOutput.new 7], rfl, rfl, by
+        intro a ha
+        simp only [List.mem_cons, List.mem_nil_iff, or_false] at ha
+        subst ha
+        exact actionWF_output 7⟩))
+  rcases hcase with e | ⟨bss, w, e⟩
+  · exact ⟨mb.length, [], Or.inl e⟩
+  · exact ⟨mb.length, bss, Or.inr ⟨w, e⟩⟩
+
+/-- `nxConnTrack_walk` applies to a conntrack action holding an output action (as NewNXActionConnTrack().AddAction
+    builds it) -/
+example : ∀ bs v2, NXActionConnTrack.marshalM (.obj "NXActionConnTrack" [NXActionHeader.newL Gen.openflow13.NXAST_CT 40,
+      .num 0, .num 0, .num 0, .num 255, .bytes [], .num 0, .list [ActionOutput.new 1]]) = .ok (bs, v2) →
+    ∃ bss, beAt bs 2 2 = bs.length ∧ walkBy declared22 (bss.length + 1) (bs.drop 24) = some bss ∧ bs.length % 8 = 0 := by
+  intro bs v2 h
+  have hm : mapM2 (Action.lenD Action.encDepth) [ActionOutput.new 1] = .ok ([16], [ActionOutput.new 1]) := rfl
+  obtain ⟨bss, a, w, _, al⟩ := nxConnTrack_walk _ _ _ _ _ [] _ [ActionOutput.new 1] (by decide) bs v2 _ _ _ _ rfl h
+    (by intro ls acts1 hm'
+        rw [hm] at hm'
+        cases hm'
+        intro x hx
+        simp only [List.mem_cons, List.mem_nil_iff, or_false] at hx
+        subst hx
+        exact ⟨16, _, rfl, by decide, by decide, Or.inl ⟨by decide, _, rfl⟩⟩)
+    (by intro ls acts1 hm'
+        rw [hm] at hm'
+        cases hm'
+        decide)
+  exact ⟨bss, a, w, al⟩
+
+theorem actionWF_resubmit (ip : Nat) (v : V) (hn : NXActionResubmit.new ip = .ok v) : ActionWF v := by
+  cases hn
+  exact ⟨16, _, rfl, by decide, by decide, Or.inr (Or.inl ⟨by show "NXActionResubmit" ∈ nxStoredKinds; decide, by decide, _, _, _, rfl⟩)⟩
+
+/-- `match_ok` applies to NewMatch() + AddField(in_port 7): the history is well-formed (C02.C02_match_history), the
+    encoder succeeds, and the 12 + 4 bytes are type 1, length 12, the field, 4 zero bytes -/
+example : ∃ m, [MatchField.mk Gen.openflow13.OXM_CLASS_OPENFLOW_BASIC Gen.openflow13.OXM_FIELD_IN_PORT false 4
+      (.obj "InPortField" [.num 7]) .nil].foldlM (fun acc f => Match.addField acc f) Match.new = .ok m ∧
+    C02.MatchWF m ∧ (Match.marshalM m).isOk = true ∧
+    ∀ bs v2, Match.marshalM m = .ok (bs, v2) → bs.length ≠ 0 → beAt bs 0 2 = 1 := by
+  refine ⟨_, rfl, ?_⟩
+  have hw := C02.C02_match_history [MatchField.mk Gen.openflow13.OXM_CLASS_OPENFLOW_BASIC Gen.openflow13.OXM_FIELD_IN_PORT
+    false 4 (.obj "InPortField" [.num 7]) .nil] _ rfl
+  refine ⟨hw, rfl, fun bs v2 h hne => ?_⟩
+  obtain ⟨_, _, _, _, _, a, _⟩ := match_ok _ hw bs v2 h hne
+  exact a
+
+/-- `bucket_walk` applies to NewBucket() + AddAction(output 7) + AddAction(group 3) -/
+example : ∀ bs v2, Bucket.marshalM (.obj "Bucket" [.num 16, .num 0, .num Gen.openflow13.P_ANY, .num Gen.openflow13.OFPG_ANY,
+      .bytes (zeros 4), .list [ActionOutput.new 7, ActionGroup.new 3]]) = .ok (bs, v2) → bs.length ≤ 65528 →
+    ∃ bss, beAt bs 0 2 = bs.length ∧ walkBy declared22 (bss.length + 1) (bs.drop 16) = some bss ∧ bss.length = 2 := by
+  intro bs v2 h hlt
+  have hm : mapM2 Action.lenM [ActionOutput.new 7, ActionGroup.new 3] = .ok ([16, 8], [ActionOutput.new 7, ActionGroup.new 3]) := rfl
+  obtain ⟨bss, as2, hmm, a, w, _, _⟩ := bucket_walk _ _ _ _ rfl hm (by
+    intro x hx
+    simp only [List.mem_cons, List.mem_nil_iff, or_false] at hx
+    rcases hx with rfl | rfl
+    · exact actionWF_output 7
+    · exact actionWF_group 3) bs v2 h hlt
+  exact ⟨bss, a, w, (mapM2_length _ _ _ _ hmm).1⟩
 
 end OFV.Props.C02b
